@@ -168,7 +168,10 @@ def run_property(pm, tier="quick", seed=0, update_baseline=False):
                 # spurious counter-model: try the bounded search of this property for a real witness before giving up
                 rep.undecided.append((oid, "counter-model does not replay on the real code (engine imprecision / weak callee contract)"))
             else:
-                if baseline.get(oid) == "proved":
+                # exits may be renumbered by an edit: the clause counts as proved at baseline if it was proved on EVERY exit there
+                stem = oid.split("@")[0] + "@"
+                same_clause = [v_ for k_, v_ in baseline.items() if k_.startswith(stem)]
+                if baseline.get(oid) == "proved" or (same_clause and all(v_ == "proved" for v_ in same_clause)):
                     rep.violations.append((oid, rp, False))
                 else:
                     rep.undecided.append((oid, "refuted, not concretisable, not proved at baseline"))
